@@ -20,10 +20,15 @@ Fixpoint decode_units (b : bytes) : bytes :=
   | _ => []
   end.
 
-Definition strip_one_nul (s : bytes) : bytes :=
-  match rev s with
-  | x00 :: r => rev r
-  | _ => s
+(** Drop one trailing NUL byte, if there is one (linear). *)
+Fixpoint strip_one_nul (s : bytes) : bytes :=
+  match s with
+  | [] => []
+  | c :: s' =>
+      match s' with
+      | [] => if Byte.eqb c x00 then [] else [c]
+      | _ :: _ => c :: strip_one_nul s'
+      end
   end.
 
 (** Odd length: the Go function returns ("", error) and every caller ignores
